@@ -45,6 +45,11 @@ def configs(tier, seed):
                     if tier == "quick" and len(xd) == 3 and st == "mixed" and len(R) < 2:
                         continue
                     out.append(dict(h="sum_to", op="sum_to", key=f"sum_to/x={xd or '-'}/R={R or '-'}/{st}/{lk}", xd=xd, lens=lens, R=R, style=st))
+                if R:
+                    # a DimensionSet as the argument: the array's own, and another set's dimensions with the same letters and
+                    # lengths but other items (a parameter's dims): the result is over the array's own dimensions either way
+                    for st in (("dimset", "foreign_dimset") if len(R) == len(xd) or tier != "quick" else ("foreign_dimset",)):
+                        out.append(dict(h="sum_to", op="sum_to", key=f"sum_to/x={xd or '-'}/R={R or '-'}/{st}/{lk}", xd=xd, lens=lens, R=R, style=st))
             for S in ordered_subsets(xd):
                 for st in (["letters", "names"] if S else ["letters"]):
                     out.append(dict(h="sum_over", op="sum_over", key=f"sum_over/x={xd or '-'}/S={S or '-'}/{st}/{lk}", xd=xd, lens=lens, S=S, style=st))
@@ -53,6 +58,9 @@ def configs(tier, seed):
             for D in ordered_subsets(xd, min_size=1):
                 if int(np.prod([lens[l] for l in xd] or [1])) <= 12:
                     out.append(dict(h="shares", op="shares", key=f"shares/x={xd}/D={D}/{lk}", xd=xd, lens=lens, D=D))
+                    if len(D) == len(xd) or len(D) == 1:
+                        # the same after totals and shares were taken once and the values were then written in place
+                        out.append(dict(h="shares", op="shares_w", key=f"shares/x={xd}/D={D}/{lk}/after_inplace_write", xd=xd, lens=lens, D=D, after_write=True))
             out.append(dict(h="unknown", op="unknown", key=f"unknown/x={xd or '-'}/{lk}", xd=xd, lens=lens))
         # cast_to: targets = every ordered subset of U (superset -> cast, else must raise)
         for td in ordered_subsets(U):
@@ -68,6 +76,12 @@ def configs(tier, seed):
 
 
 def _named(style, letters, dims):
+    if style in ("dimset", "foreign_dimset"):
+        from flodym import DimensionSet, Dimension
+
+        if style == "dimset":
+            return DimensionSet(dim_list=[dims[l] for l in letters])
+        return DimensionSet(dim_list=[Dimension(name=dims[l].name, letter=l, items=[f"other_{it}" for it in dims[l].items[::-1]]) for l in letters])
     out = []
     for i, l in enumerate(letters):
         s = style if style != "mixed" else ["letters", "names", "objects"][i % 3]
@@ -142,6 +156,11 @@ def run(cfg, w):
         return
     if h == "shares":
         D = list(cfg["D"])
+        if cfg.get("after_write"):
+            x.sum_values(), x.get_shares_over(tuple(D)), x.get_shares_over(tuple(xd)), x.sum_to(())
+            X = w.arr("x_new", tuple(lens[l] for l in xd))
+            x.values[...] = X  # the documented way of filling an array: through its values buffer
+            w.ob_eq("sum_values_after_write", x.sum_values(), marginal({}, []))
         res = x.get_shares_over(tuple(D))
         if not check_dims(res, list(xd)):
             return
